@@ -7,7 +7,10 @@ RULE = ("exhaustive product 12 months x {int, zero-padded decimal strings, case 
         "{3 single middlewares + 9 ordered pairs}; non-month values; arbitrary Unicode strings (no-raise); all 27 chains of "
         "three middlewares and random longer ones; transform / edit / transform sequences on one entry (month re-set by the "
         "caller in four ways, deep copies, output library of an earlier run, instances re-used or fresh, in place or not, entry "
-        "from parse_string with a month middleware in the parse stack). "
+        "from parse_string with a month middleware in the parse stack); month values that are instances of int / str "
+        "SUBCLASSES (user subclass, IntEnum / calendar.Month / IntFlag members, subclass with its own text forms, str-mixin "
+        "Enum members): every month 1..12 and out-of-range numbers, digit strings and names, x 3 middlewares x 9 ordered pairs, "
+        "chains, several entries, edit sequences, libraries with other blocks. "
         "distinct = distinct (value, middleware sequence); non-trivial = the value is a month spelling or a near miss "
         "(out-of-range number, enclosed or padded month, other type)")
 TRUSTED = ["oracle instances: str.lower restricted to ASCII, int() restricted to ASCII decimals (inputs outside are "
@@ -49,8 +52,77 @@ def jv(v):
     return v
 
 
+class LoudInt(int):
+    """A user-side int subclass with its own text forms (repr / str / format do not show a number alone)."""
+
+    def __repr__(self):
+        return "LoudInt<%s>" % int.__repr__(self)
+
+    __str__ = __repr__
+
+    def __format__(self, spec):
+        return "LoudInt<%s>" % int.__format__(self, spec)
+
+
+INT_FLAVOURS = ["sub", "enum", "cal", "loud", "flag"]     # see mk_isub
+STR_FLAVOURS = ["sub", "enum"]                            # see mk_ssub
+_ENUM_CACHE = {}
+
+
+def mk_isub(flav, n):
+    """An instance of an int SUBCLASS that equals n.  sub: userclasses.IntSub; enum: enum.IntEnum member (userclasses.MonthEnum
+    for 1..12, a one-member IntEnum otherwise); cal: calendar.Month member (Python >= 3.12, 1..12; else as enum); loud: LoudInt;
+    flag: enum.IntFlag member (n >= 0; else as enum)."""
+    import enum
+    from . import userclasses
+    uc = userclasses.get()
+    if flav == "sub":
+        return uc.IntSub(n)
+    if flav == "loud":
+        return LoudInt(n)
+    if flav == "cal":
+        import calendar
+        if hasattr(calendar, "Month") and 1 <= n <= 12:
+            return calendar.Month(n)
+        flav = "enum"
+    if flav == "flag" and n < 0:
+        flav = "enum"
+    if flav == "enum" and 1 <= n <= 12:
+        return uc.MonthEnum(n)
+    if (flav, n) not in _ENUM_CACHE:
+        base = enum.IntFlag if flav == "flag" else enum.IntEnum
+        _ENUM_CACHE[(flav, n)] = base("Wide" + base.__name__, {"V": n}).V
+    return _ENUM_CACHE[(flav, n)]
+
+
+def mk_ssub(flav, text):
+    """An instance of a str SUBCLASS that equals text.  sub: userclasses.StrSub; enum: member of an Enum with the str mixin."""
+    import enum
+    from . import userclasses
+    if flav == "sub":
+        return userclasses.get().StrSub(text)
+    if ("s", text) not in _ENUM_CACHE:
+        _ENUM_CACHE[("s", text)] = enum.Enum("StrMonth", {"V": text}, type=str).V
+    return _ENUM_CACHE[("s", text)]
+
+
+def sub_tags(*json_values):
+    """Distribution tags for the subclass forms among JSON-encoded values."""
+    out = set()
+    for v in json_values:
+        if isinstance(v, dict) and "isub" in v:
+            out.add("intsub-" + v["isub"][0])
+        elif isinstance(v, dict) and "ssub" in v:
+            out.add("strsub-" + v["ssub"][0])
+    return sorted(out)
+
+
 def unjv(v):
     if isinstance(v, dict):
+        if "isub" in v:
+            return mk_isub(v["isub"][0], unjv(v["isub"][1]))
+        if "ssub" in v:
+            return mk_ssub(v["ssub"][0], v["ssub"][1])
         if "int" in v:
             return v["int"]
         if "bool" in v:
@@ -143,6 +215,7 @@ def generate(rng, tier):
     cases += gen_chains(rng, tier, fam)
     cases += gen_edits(rng, tier)
     cases += gen_libs(rng, tier)
+    cases += gen_subclass(rng, tier)          # last: the streams above are the same as before for a given seed
     return cases
 
 
@@ -327,13 +400,184 @@ def gen_libs(rng, tier):
     return cases
 
 
+def gen_subclass(rng, tier):
+    """INT-LIKE / STR-LIKE month values that are not plain int / str: instances of int subclasses (INT_FLAVOURS) and of str
+    subclasses (STR_FLAVOURS), as {"isub": [flavour, n]} / {"ssub": [flavour, text]} (built by unjv in the child process).
+
+    An int-subclass instance equal to m is an integer spelling of m, a str-subclass instance a digit string / name like the
+    plain one (month_of); bool stays excluded (DESIGN 7).  Covered: every month x every int flavour, out-of-range numbers,
+    every spelling as str subclass, near misses, x 3 middlewares x 9 ordered pairs; other entry shapes; chains of three and
+    longer; several entries through one instance (next to the equal plain values); transform / edit / transform sequences;
+    libraries with other blocks (object modes; non-month fields holding subclass values too)."""
+    quick = tier == "quick"
+    cases = []
+    chains3 = [list(c) for c in itertools.product(range(3), repeat=3)]
+
+    def isub(n, flav=None):
+        return {"isub": [flav or rng.choice(INT_FLAVOURS), n]}
+
+    def ssub(t, flav=None):
+        return {"ssub": [flav or rng.choice(STR_FLAVOURS), t]}
+
+    def wrap(v, flav=None):
+        """the subclass form of a plain int / str value (other values as they are)"""
+        if isinstance(v, bool):
+            return v
+        if isinstance(v, int):
+            return isub(v, flav)
+        if isinstance(v, str):
+            return ssub(v, flav)
+        return jv(v)
+
+    def some_month():
+        return wrap(rng.choice(spellings(rng.randint(1, 12))))
+
+    out_of_range = [-1, 0, 13, 99, 10 ** 17, -12, 256, 2 ** 31, -(2 ** 40)]       # within the model binary's 63-bit ints
+    near_str = ["0", "13", "00", "000012x", "{jan}", '"1"', '"jan"', "{1}", "", " jan", "jan ", "janu", "ja", "sept", "1.0", "+1", "-1",
+                "x", "maybe", "decembe", "\u0661", "\u00b2", "1\u00b2", "\u0661\u0662", "\uff11", "\u0130an", "ma\u017f", "0" * 40 + "7", "1" * 30]
+
+    def some_near():
+        return isub(rng.choice(out_of_range)) if rng.random() < 0.5 else ssub(rng.choice(near_str))
+    vals = []
+    # -- every month as every int flavour; out-of-range numbers
+    for m in range(1, 13):
+        for flav in INT_FLAVOURS:
+            vals.append(isub(m, flav))
+    for n in out_of_range:
+        for flav in ("sub", "enum", "loud"):
+            vals.append(isub(n, flav))
+    vals += [isub(0, "flag"), isub(13, "flag"), isub(16, "flag")]
+    for big in ({"pow10": [1, 4300, 0]}, {"pow10": [-1, 4300, 0]}):                  # beyond int()'s digit limit (oracle only)
+        vals.append(isub(big, rng.choice(["sub", "loud"])))
+    # -- every spelling as str subclass: all as StrSub, a sample (thorough: all) as str-mixin Enum member; case variants
+    for v in vals:
+        for seq in SEQS:
+            cases.append({"stream": "subclass", "input": {"value": v, "mws": seq, "shape": 0}})
+    # quick: every single middleware on every value, the 9 ordered pairs on all canonical forms and a sample of the others
+    vals = []
+    for m in range(1, 13):
+        sp = spellings(m)[1:] + ["00%d" % m]
+        canon = (ABBR[m - 1], FULL[m - 1], str(m))          # the forms a middleware may hand back as they are
+        for t in sp:
+            vals.append((ssub(t, "sub"), t in canon or rng.random() < 0.34))
+        for t in (rng.sample(sp, 3) if quick else sp):
+            vals.append((ssub(t, "enum"), t in canon or rng.random() < 0.34))
+        for word in (ABBR[m - 1], FULL[m - 1]):
+            for t in itertools.islice(case_variants(word, rng, 4), 1 if quick else 6):
+                vals.append((ssub(t), rng.random() < 0.34))
+    for t in near_str:
+        for flav in (STR_FLAVOURS if not quick else [rng.choice(STR_FLAVOURS)]):
+            vals.append((ssub(t, flav), rng.random() < 0.34))
+    for v, pairs in vals:
+        for seq in (SEQS if pairs or not quick else SEQS[:3]):
+            cases.append({"stream": "subclass", "input": {"value": v, "mws": seq, "shape": 0}})
+    # -- other entry shapes (no month key / several fields / duplicate month key)
+    for shape in (1, 2, 3):
+        for v in [isub(3), isub(rng.randint(1, 12)), isub(13), ssub("mar"), ssub("March"), ssub("3"), ssub("x")]:
+            for seq in (SEQS if not quick else rng.sample(SEQS, 6)):
+                cases.append({"stream": "subclass", "input": {"value": v, "mws": seq, "shape": shape}})
+    # -- chains of three (quick: a sample of 9 per value) and longer ones
+    for m in range(1, 13):
+        sp = spellings(m)
+        pick = [isub(m), isub(m)] + [ssub(t) for t in rng.sample(sp[1:], 2)] if quick else \
+            [isub(m, f) for f in INT_FLAVOURS] + [ssub(t, f) for t in sp[1:] for f in STR_FLAVOURS]
+        for v in pick:
+            for seq in (rng.sample(chains3, 9) if quick else chains3):
+                cases.append({"stream": "subclass", "input": {"value": v, "mws": seq, "shape": 0}})
+    for _ in range(120 if quick else 1500):
+        v = some_month() if rng.random() < 0.8 else some_near()
+        seq = [rng.randrange(3) for _ in range(rng.randint(3, 7))]
+        cases.append({"stream": "subclass", "input": {"value": v, "mws": seq, "shape": rng.choice([0, 0, 2, 3])}})
+    # -- several entries through one instance per stack position: subclass values next to the equal plain ones
+    fam = [[3, "3", "03", "mar", "MAR", "March", "march"], [12, "12", "dec", "Dec", "December", "DECEMBER"], [1, "1", "01", "jan", "Jan", "January"],
+           [13, "13", 0, "0", "", "x"], [5, "5", "may", "May", "MAY"]]
+    for i in range(100 if quick else 1000):
+        f = fam[i % len(fam)]
+        vs = []
+        for _ in range(rng.randint(2, 5)):
+            v = rng.choice(f)
+            vs.append(wrap(v) if rng.random() < 0.6 else jv(v))
+        if not sub_tags(*vs):
+            vs[rng.randrange(len(vs))] = wrap(rng.choice(f))
+        seq = rng.choice(SEQS) if rng.random() < 0.7 else [rng.randrange(3) for _ in range(rng.randint(3, 5))]
+        cases.append({"stream": "subclass-multi", "input": {"values": vs, "mws": seq}})
+    # -- transform / edit / transform on one entry
+    def mw(k=None):
+        return ["mw", rng.randrange(3) if k is None else k, rng.randrange(2), rng.randrange(2)]
+
+    def add_edit(start, steps):
+        cases.append({"stream": "subclass-edit", "input": {"start": start, "steps": steps, "shape": rng.choice([0, 2])}})
+    for k in range(3):
+        for m in range(1, 13):
+            for how in range(4):
+                other = rng.choice([x for x in range(1, 13) if x != m])
+                v2s = [wrap(rng.choice(spellings(other)))] if quick else [wrap(t) for t in spellings(other)] + [some_near(), some_near()]
+                for v2 in v2s:
+                    inpl, reuse = rng.randrange(2), rng.randrange(2)
+                    start = wrap(rng.choice(spellings(m))) if rng.random() < 0.7 else jv(rng.choice(spellings(m)))
+                    add_edit(start, [["mw", k, inpl, reuse], ["set", v2, how], ["mw", k, inpl, reuse]])
+    for k in range(3):
+        for k2 in range(3):
+            for chow in range(3):
+                for _ in range(1 if quick else 8):
+                    add_edit(some_month(), [mw(k), ["copy", chow], mw(k2), mw(k)])
+                    add_edit(some_month(), [["copy", chow], mw(k2), mw(k)])
+    for _ in range(150 if quick else 1800):
+        steps = []
+        for _ in range(rng.randint(1, 6)):
+            r = rng.random()
+            steps.append(mw() if r < 0.55 else
+                         ["set", some_month() if rng.random() < 0.8 else some_near() if rng.random() < 0.7 else jv(rng.choice(NEAR_SMALL)), rng.randrange(4)]
+                         if r < 0.85 else ["copy", rng.randrange(3)])
+        steps.append(mw())
+        start = some_month() if rng.random() < 0.8 else some_near()
+        add_edit(start, steps)
+    # -- libraries with other blocks, object modes
+    def entry(key, v, extra=None):
+        return {"t": "e", "k": key, "x": extra or [], "m": v}
+
+    def add_lib(blocks, how, mws):
+        cases.append({"stream": "subclass-lib", "input": {"blocks": blocks, "how": how, "mws": mws, "inplace": rng.randrange(2),
+                                                          "warm": int(rng.random() < 0.25), "share": rng.randrange(2)}})
+    obj_hows = [h for h in LIB_HOWS if h not in LIB_TEXT_HOWS]
+    for m in range(1, 13):
+        for how in obj_hows:
+            for k in range(3):
+                for v in ([isub(m), ssub(rng.choice(spellings(m)[1:]))] if quick else
+                          [isub(m, f) for f in INT_FLAVOURS] + [ssub(t) for t in spellings(m)[1:]]):
+                    st = {"t": "s", "k": rng.choice([ABBR[m - 1], FULL[m - 1], str(m), "unrelated"]), "v": rng.choice(['"feb"', "{12}", "3"])}
+                    e = entry("key%d" % m, v, extra=[["title", "{T}"]])
+                    add_lib([st, e] if rng.random() < 0.6 else [e, st], how, [k] if rng.random() < 0.6 else [rng.randrange(3), k])
+    for _ in range(150 if quick else 1800):
+        blocks = []
+        for i in range(rng.randint(1, 4)):
+            v = some_month() if rng.random() < 0.75 else some_near() if rng.random() < 0.6 else jv(rng.choice(spellings(rng.randint(1, 12))))
+            extra = []
+            if rng.random() < 0.6:      # other fields that hold month-like subclass values: not the month field, unchanged with type
+                extra.append(rng.choice([["note", ssub("jan")], ["Month", isub(2)], ["MONTH", ssub("12")], ["number", isub(3)], ["year", isub(2020)],
+                                         ["title", ssub("{March}")], ["note", "jan"]]))
+            blocks.append(entry("k%d" % i if rng.random() < 0.8 else rng.choice(ABBR + FULL), v, extra))
+        if not sub_tags(*[b["m"] for b in blocks]):
+            blocks[0]["m"] = some_month()
+        for _ in range(rng.randint(0, 2)):
+            blocks.insert(rng.randint(0, len(blocks)), {"t": "s", "k": rng.choice(rng.choice([ABBR, FULL, ["1", "03", "12", "unrelated", "month"]])),
+                                                        "v": rng.choice(['"some text"', '"feb"', "{12}", "3"])})
+        if rng.random() < 0.4:
+            blocks.insert(rng.randint(0, len(blocks)), {"t": rng.choice("cipf"), "v": rng.choice(["jan", "month = jan", "March 12", "x"])})
+        seq = rng.choice(SEQS) if rng.random() < 0.8 else [rng.randrange(3) for _ in range(rng.randint(3, 5))]
+        add_lib(blocks, rng.choice(obj_hows), seq)
+    return cases
+
+
 def month_of(v):
     """The month a value spells (property text), or None."""
     if isinstance(v, bool):
         return None
-    if isinstance(v, int):
+    if isinstance(v, int):                                                # every int instance, also of a subclass (bool: above)
+        v = int.__int__(v)
         return v if 1 <= v <= 12 else None
     if isinstance(v, str):
+        v = str.__str__(v)                                                # the text of a str-subclass instance
         if v.isdecimal():
             import unicodedata
             i = 0
@@ -358,6 +602,22 @@ def expected(kind, v):
     if m is None:
         return v
     return [m, ABBR[m - 1], FULL[m - 1]][kind]
+
+
+def matches(got, kind, v):
+    """Property statement for ONE value: got is what middleware `kind` (applied last) may leave for the month value v.
+
+    v spells month m: got is m / the lower-case abbreviation / the capitalised full name - a plain int / str; when v is an
+    instance of an int (str) subclass and already IS that number (text), the same subclass is accepted as well (the property
+    says which value is produced, a subclass instance equal to it is that value; a chain through another kind gives the plain
+    one).  Otherwise: unchanged, with its type."""
+    m = month_of(v)
+    if m is None:
+        return type(got) is type(v) and bool(got == v or (got != got and v != v))
+    exp = [m, ABBR[m - 1], FULL[m - 1]][kind]
+    if isinstance(got, bool) or not isinstance(got, type(exp)) or not (got == exp and exp == got):
+        return False
+    return type(got) is type(exp) or type(got) is type(v)
 
 
 def impl(case):
@@ -424,8 +684,8 @@ def impl(case):
         else:
             got = fs[pos].value
             exp = expected(inp["mws"][-1], v)
-            if not (type(got) is type(exp) and (got == exp or (got != got and exp != exp))):
-                ok, detail = False, "month value %s through %r gave %s (%s), expected %s" % (sr(v), inp["mws"], sr(got), type(got).__name__, sr(exp))
+            if not matches(got, inp["mws"][-1], v):
+                ok, detail = False, "month value %s (%s) through %r gave %s (%s), expected %s" % (sr(v), type(v).__name__, inp["mws"], sr(got), type(got).__name__, sr(exp))
         others = [(f.key, f.value) for i, f in enumerate(fs) if i != pos]
         orig = [(f.key, f.value) for i, f in enumerate(fields) if i != pos]
         if shape != 1 and [k for k, _ in others] != [k for k, _ in orig]:
@@ -438,6 +698,9 @@ def impl(case):
     m = month_of(v)
     rec["nontrivial"] = (m is not None) or case["stream"] in ("near", "shape")
     rec["tags"] = ["month" if m is not None else "nonmonth"] + (["chain%d" % min(len(inp["mws"]), 4)] if len(inp["mws"]) > 2 else [])
+    st = sub_tags(inp["value"])
+    if st:
+        rec["tags"] += st + ["subclass-month" if m is not None else "subclass-nonmonth"]
     rec["summary"] = ("[" + ", ".join("(%r, %s)" % (f.key, sr(f.value)) for f in blk.fields) + "]")[:200] if type(blk).__name__ == "Entry" else type(blk).__name__
     return rec
 
@@ -459,7 +722,7 @@ def impl_multi(case, MW):
             lib = MW[k]().transform(lib)
         return lib
     r = implutil.guarded(run)
-    rec = {"sx_in": sx_in, "key": json.dumps([inp["values"], inp["mws"]]), "nontrivial": True, "tags": ["multi"]}
+    rec = {"sx_in": sx_in, "key": json.dumps([inp["values"], inp["mws"]]), "nontrivial": True, "tags": ["multi"] + sub_tags(*inp["values"])}
     if r[0] == "exc":
         rec["sx_out"] = implutil.r_exc(r[1])
         rec["oracle"] = {"ok": False, "detail": "middleware raised %s on month values %r" % (r[2], vs)}
@@ -476,7 +739,7 @@ def impl_multi(case, MW):
         for i, (v, b) in enumerate(zip(vs, lib.blocks)):
             got = b.fields[0].value if len(b.fields) == 1 else None
             exp = expected(inp["mws"][-1], v)
-            if not (type(got) is type(exp) and got == exp) or b.key != "k%d" % i:
+            if not matches(got, inp["mws"][-1], v) or b.key != "k%d" % i:
                 ok, detail = False, ("entry %d of a library with month values %r through %r: value %r gave %r (%s), expected %r" %
                                      (i, vs, inp["mws"], v, got, type(got).__name__, exp))
                 break
@@ -559,7 +822,8 @@ def impl_edit(case, MW):
     v = sets[-1] if sets else start                       # the value the last run of middlewares starts from (as a month)
     sx_in = [10, tail, state["snap"]] if state["snap"] is not None else None
     rec = {"sx_in": sx_in, "key": json.dumps(inp, sort_keys=True), "nontrivial": True,
-           "tags": ["edit", "edit-set" if sets else "edit-copy", "parsed" if make is not None else "built"]}
+           "tags": ["edit", "edit-set" if sets else "edit-copy", "parsed" if make is not None else "built"]
+           + sub_tags(inp["start"], *[st[1] for st in steps if st[0] == "set"])}
     if r[0] == "exc":
         rec["sx_out"] = implutil.r_exc(r[1]) if sx_in is not None else None
         rec["oracle"] = {"ok": False, "detail": "raised %s in sequence %r starting from month %s" % (r[2], steps, sr(start))}
@@ -587,7 +851,7 @@ def impl_edit(case, MW):
             ok, detail = False, "%d month fields after %r" % (len(mf), steps)
         else:
             got = mf[0].value
-            if not (type(got) is type(exp) and got == exp):
+            if not matches(got, steps[-1][1], v):
                 ok, detail = False, ("entry%s with month %s through %r: the last middleware found month value %s and left %s (%s), expected %s"
                                      % (" parsed with middleware %d" % make[1] if make is not None else "", sr(start), steps, sr(v), sr(got),
                                         type(got).__name__, sr(exp)))
@@ -627,7 +891,7 @@ def lib_objects(specs):
     for i, b in enumerate(specs):
         t = b["t"]
         if t == "e":
-            fs = [Field(k, v, i + 1) for k, v in b["x"]]
+            fs = [Field(k, unjv(v), i + 1) for k, v in b["x"]]
             if "m" in b:
                 fs.insert(min(1, len(fs)), Field("month", unjv(b["m"]), i + 1))
             out.append(Entry("article", b["k"], fs, start_line=i, raw="@article{%s}" % b["k"]))
@@ -727,7 +991,8 @@ def impl_lib(case, MW):
             ents = out
         return ents
     r = implutil.guarded(run)
-    rec = {"key": json.dumps(inp, sort_keys=True), "nontrivial": True, "tags": ["lib", "lib-" + how]}
+    rec = {"key": json.dumps(inp, sort_keys=True), "nontrivial": True, "tags": ["lib", "lib-" + how]
+           + sub_tags(*([b.get("m") for b in specs] + [x[1] for b in specs for x in b.get("x", [])]))}
     rec["sx_in"] = [11, mws, state["sx"]] if "sx" in state else None
     if r[0] == "exc":
         rec["sx_out"] = implutil.r_exc(r[1]) if rec["sx_in"] is not None else None
@@ -757,7 +1022,7 @@ def impl_lib(case, MW):
                 break
             for j, ((k, v), f) in enumerate(zip(fs, b.fields)):
                 exp = expected(mws[-1], v) if j == last else v
-                if not same(f.value, exp):
+                if not (matches(f.value, mws[-1], v) if j == last else same(f.value, v)):
                     ok = False
                     detail = ("entry %d (%r) of a library %s with @string keys %r, run as %r through %r: field %r = %s gave %s (%s), expected %s"
                               % (i, key, [s["t"] for s in specs], state["skeys"], how, mws, k, sr(v), sr(f.value), type(f.value).__name__,
